@@ -116,13 +116,108 @@ pub proof fn lemma_admit(adm: Seq<nat>, k: nat, now: nat, w: nat, limit: nat)
     }
 }
 
+// ---- C02 (fixed window / sliding counter): global window-history lemma over the contracts of try_acquire ----
+/// abstract view of a windowed limiter state: the current window started at `start` and has admitted `used` callers
+pub struct Win { pub start: nat, pub used: nat, pub limit: nat, pub period: nat }
+/// ghost history: every window start so far (`cuts`), every admission instant (`adm`) and the window each was counted in (`win`)
+pub struct WinHist { pub cuts: Seq<nat>, pub adm: Seq<nat>, pub win: Seq<nat> }
+pub open spec fn count_in(win: Seq<nat>, i: nat) -> nat decreases win.len() {
+    if win.len() == 0 { 0 } else { count_in(win.drop_last(), i) + if win.last() == i { 1nat } else { 0nat } }
+}
+/// what one try_acquire does to the abstract view, as its contract states it
+pub open spec fn win_post(w0: Win, w1: Win, admitted: bool, now: nat) -> bool {
+    let a = if admitted { 1nat } else { 0nat };
+    &&& w1.limit == w0.limit && w1.period == w0.period
+    &&& w0.start <= now && w1.used <= w1.limit
+    &&& w1.start != w0.start ==> now >= w0.start + w0.period && w1.start == now && w1.used == a
+    &&& w1.start == w0.start ==> w1.used == w0.used + a
+}
+/// C02: time is cut at `cuts` into consecutive windows, none shorter than the period, each holding at most `limit` admissions,
+/// every admission lying inside the window it is counted in
+pub open spec fn adm_ok(h: WinHist, j: int, now: nat) -> bool {
+    let n = h.cuts.len() as int; let k = h.win[j] as int;
+    k < n && h.cuts[k] <= h.adm[j] && h.adm[j] <= (if k + 1 < n { h.cuts[k + 1] } else { now })
+}
+pub open spec fn win_inv(w: Win, h: WinHist, now: nat) -> bool {
+    let n = h.cuts.len() as int;
+    &&& n >= 1 && h.adm.len() == h.win.len()
+    &&& h.cuts[n - 1] == w.start && w.start <= now
+    &&& forall|i: int| 0 <= i && i + 1 < n ==> #[trigger] h.cuts[i + 1] - h.cuts[i] >= w.period
+    &&& forall|i: nat| i < n ==> #[trigger] count_in(h.win, i) <= w.limit
+    &&& count_in(h.win, (n - 1) as nat) == w.used
+    &&& forall|j: int| 0 <= j < h.adm.len() ==> #[trigger] adm_ok(h, j, now)
+}
+pub open spec fn win_step(h: WinHist, w0: Win, w1: Win, admitted: bool, now: nat) -> WinHist {
+    let h1 = if w1.start != w0.start { WinHist { cuts: h.cuts.push(w1.start), ..h } } else { h };
+    if admitted { WinHist { adm: h1.adm.push(now), win: h1.win.push((h1.cuts.len() - 1) as nat), ..h1 } } else { h1 }
+}
+pub open spec fn win_init(w: Win) -> WinHist { WinHist { cuts: seq![w.start], adm: Seq::empty(), win: Seq::empty() } }
+pub proof fn lemma_count_push(win: Seq<nat>, x: nat, i: nat)
+    ensures count_in(win.push(x), i) == count_in(win, i) + if x == i { 1nat } else { 0nat },
+{
+    assert(win.push(x).drop_last() =~= win);
+}
+pub proof fn lemma_count_zero(win: Seq<nat>, i: nat)
+    requires forall|j: int| 0 <= j < win.len() ==> (#[trigger] win[j]) < i,
+    ensures count_in(win, i) == 0,
+    decreases win.len(),
+{
+    if win.len() > 0 { lemma_count_zero(win.drop_last(), i); }
+}
+pub proof fn lemma_win_init(w: Win, now: nat)
+    requires w.used == 0, w.start <= now,
+    ensures win_inv(w, win_init(w), now),   // #a_new_limiter_starts_with_one_empty_window [C02]
+{
+    let h = win_init(w);
+    assert forall|i: nat| i < 1 implies #[trigger] count_in(h.win, i) <= w.limit by {}
+}
+/// every try_acquire satisfying its contract keeps the window history within the limit
+pub proof fn lemma_win_step(w0: Win, w1: Win, h: WinHist, admitted: bool, now0: nat, now: nat)
+    requires win_inv(w0, h, now0), now0 <= now, win_post(w0, w1, admitted, now),
+    ensures win_inv(w1, win_step(h, w0, w1, admitted, now), now),   // #windows_partition_time_each_at_least_the_period_and_within_the_limit [C02]
+{
+    let n0 = h.cuts.len() as int;
+    let h1 = if w1.start != w0.start { WinHist { cuts: h.cuts.push(w1.start), ..h } } else { h };
+    let n = h1.cuts.len() as int;
+    // after the (possible) cut
+    assert(win_inv(Win { used: if w1.start != w0.start { 0 } else { w0.used }, ..w1 }, h1, now)) by {
+        if w1.start != w0.start {
+            assert forall|j: int| 0 <= j < h.win.len() implies (#[trigger] h.win[j]) < n0 by { assert(adm_ok(h, j, now0)); }
+            lemma_count_zero(h.win, n0 as nat);
+            assert forall|i: int| 0 <= i && i + 1 < n implies #[trigger] h1.cuts[i + 1] - h1.cuts[i] >= w1.period by {
+                if i + 1 < n0 { assert(h1.cuts[i + 1] == h.cuts[i + 1] && h1.cuts[i] == h.cuts[i]); }
+            }
+            assert forall|j: int| 0 <= j < h1.adm.len() implies #[trigger] adm_ok(h1, j, now) by {
+                assert(adm_ok(h, j, now0));
+            }
+        } else {
+            assert forall|j: int| 0 <= j < h1.adm.len() implies #[trigger] adm_ok(h1, j, now) by {
+                assert(adm_ok(h, j, now0));
+            }
+        }
+    }
+    if admitted {
+        let h2 = win_step(h, w0, w1, admitted, now);
+        assert forall|i: nat| i < n implies #[trigger] count_in(h2.win, i) <= w1.limit by {
+            lemma_count_push(h1.win, (n - 1) as nat, i);
+        }
+        lemma_count_push(h1.win, (n - 1) as nat, (n - 1) as nat);
+        assert forall|j: int| 0 <= j < h2.adm.len() implies #[trigger] adm_ok(h2, j, now) by {
+            if j < h1.adm.len() { assert(adm_ok(h1, j, now)); }
+        }
+    }
+}
+
 impl FixedWindowState {
+    /// abstract view for the window-history lemma: permits handed out in the current window
+    pub open spec fn win(&self) -> Win { Win { start: self.period_start.t as nat, used: (self.limit_for_period - self.available_permits) as nat, limit: self.limit_for_period as nat, period: self.refresh_period.nanos as nat } }
     pub open spec fn wf(&self, clk: Clock) -> bool {
         self.available_permits <= self.limit_for_period && self.period_start.t <= clk.now@ && self.limit_for_period >= 1 && self.refresh_period.nanos > 0
     }
     pub fn new(limit_for_period: usize, refresh_period: Duration, timeout_duration: Duration, clk: &mut Clock) -> (r: Self)
         requires limit_for_period >= 1, refresh_period.nanos > 0,
         ensures r.wf(*final(clk)),   // #starts_with_a_full_window [C02]
+            r.win().used == 0 && r.win().start <= final(clk).now@,   // #window_history_starts_empty [C02]
             r.available_permits == limit_for_period && r.limit_for_period == limit_for_period && r.refresh_period == refresh_period && r.timeout_duration == timeout_duration,   // #keeps_configuration [C02,C15]
     //@body FixedWindowState::new
 
@@ -134,6 +229,7 @@ impl FixedWindowState {
         requires old(self).wf(*old(clk)),
         ensures
             final(self).wf(*final(clk)),   // #never_more_than_limit_permits_per_window [C02]
+            win_post(old(self).win(), final(self).win(), r == zero(), final(clk).now@),   // #each_acquisition_is_a_step_of_the_window_history [C02]
             final(self).limit_for_period == old(self).limit_for_period && final(self).refresh_period == old(self).refresh_period && final(self).timeout_duration == old(self).timeout_duration,   // #configuration_unchanged [C02]
             // a new window starts only when the current one is at least refresh_period old, and starts full
             final(self).period_start != old(self).period_start ==> final(clk).now@ - old(self).period_start.t >= old(self).refresh_period.nanos
@@ -191,12 +287,15 @@ impl SlidingLogState {
 }
 
 impl SlidingCounterState {
+    /// abstract view for the window-history lemma: admissions counted in the current bucket
+    pub open spec fn win(&self) -> Win { Win { start: self.bucket_start.t as nat, used: self.current_count as nat, limit: self.limit_for_period as nat, period: self.bucket_duration.nanos as nat } }
     pub open spec fn wf(&self, clk: Clock) -> bool {
         self.current_count <= self.limit_for_period && self.bucket_start.t <= clk.now@ && self.limit_for_period >= 1 && self.bucket_duration.nanos > 0
     }
     pub fn new(limit_for_period: usize, bucket_duration: Duration, timeout_duration: Duration, clk: &mut Clock) -> (r: Self)
         requires limit_for_period >= 1, bucket_duration.nanos > 0,
         ensures r.wf(*final(clk)),   // #starts_with_empty_buckets [C02]
+            r.win().used == 0 && r.win().start <= final(clk).now@,   // #window_history_starts_empty [C02]
             r.current_count == 0 && r.previous_count == 0 && r.limit_for_period == limit_for_period && r.bucket_duration == bucket_duration && r.timeout_duration == timeout_duration,   // #keeps_configuration [C02,C15]
     //@body SlidingCounterState::new
 
@@ -214,6 +313,7 @@ impl SlidingCounterState {
         requires old(self).wf(*old(clk)),
         ensures
             final(self).wf(*final(clk)),   // #never_more_than_limit_per_bucket [C02]
+            win_post(old(self).win(), final(self).win(), r == zero(), final(clk).now@),   // #each_acquisition_is_a_step_of_the_window_history [C02]
             final(self).limit_for_period == old(self).limit_for_period && final(self).bucket_duration == old(self).bucket_duration && final(self).timeout_duration == old(self).timeout_duration,   // #configuration_unchanged [C02]
             final(self).bucket_start != old(self).bucket_start ==> final(clk).now@ - old(self).bucket_start.t >= old(self).bucket_duration.nanos && final(self).bucket_start.t == final(clk).now@,   // #bucket_never_shorter_than_refresh_period [C02]
             final(self).bucket_start == old(self).bucket_start ==> final(self).previous_count == old(self).previous_count
